@@ -37,18 +37,10 @@ rc2, o2 = sh(demo_cmd, wt)
 res["demo_without_patch"] = "passes" if rc2 == 0 else "FAILS: " + o2[-800:]
 os.remove(os.path.join(demodir, f"demo_{k}.rs"))
 sh("git checkout -- . && git clean -fdq -e target", wt)
-# run the check against the change in /repo
-rc, o = sh(f"git -C /repo apply {patch} && (./check {prop}; true); git -C /repo checkout -- .", "/verif")
+# run the check against the change in an isolated copy of /repo and /verif (lib/seedtest.sh)
+rc, o = sh(f"/verif/lib/seedtest.sh {patch} {prop}", "/verif")
 res["check_output"] = [l for l in o.split("\n") if l.startswith(("VIOLATION", "OK", "KNOWN"))]
-rep = None
-for l in res["check_output"]:
-    if "replay=" in l:
-        rp = l.split("replay=")[1].split()[0]
-        try:
-            d = json.load(open(rp)); rep = {kk: d.get(kk) for kk in ("kind", "line", "verdict", "broken")}
-            if rep.get("line"): rep["line"] = rep["line"][:300]
-        except Exception as e:
-            rep = str(e)
+rep = [l.strip() for l in o.split("\n") if l.strip().startswith("replay:")]
 res["replay"] = rep
 ok = res["suite_with_patch"] == "pass" and res["demo_with_patch"] == "fails" and res["demo_without_patch"] == "passes"
 res["confirmed"] = ok
@@ -62,6 +54,6 @@ if ok:
          "demo_location": loc, "demo_cmd": demo_cmd.replace(f"demo_{k}", "demo") + "   (demo.rs copied to <worktree>/" + loc + "/demo.rs)",
          "confirmed": {"existing_suite_with_patch": "124 tests pass", "demo_with_patch": "fails", "demo_without_patch": "passes",
                        "ran": "scratch worktree of /repo HEAD: git apply patch.diff; cargo test --workspace --no-fail-fast --offline; demo test; git apply -R; demo test"},
-         "check": {"cmd": f"git -C /repo apply /verif/seeded/{sid}/patch.diff; ./check {prop}; git -C /repo checkout -- .", "output": res["check_output"], "replay": rep,
+         "check": {"cmd": f"lib/seedtest.sh seeded/{sid}/patch.diff {prop}   (isolated copy; equivalently: git -C /repo apply /verif/seeded/{sid}/patch.diff; ./check {prop}; git -C /repo checkout -- .)", "output": res["check_output"], "replay": rep,
                    "detected": any(l.startswith("VIOLATION") for l in res["check_output"])}}
     json.dump(m, open(f"{d}/meta.json", "w"), indent=1)
